@@ -62,6 +62,10 @@ Definition ty_args (v: kv) : kv :=
 Definition ty_real (v: kv) : kv :=
   match v with KTuple [KStr s; t] => if String.eqb s "TypeVar" then t else v | _ => v end.
 
+(* helpers.get_type_var_meaning (fixes/C08-typevar-bound-nullable.diff): a variable nobody binds stands for its bound *)
+Definition ty_unbound (v: kv) : kv :=
+  match v with KTuple [KStr s; t] => if String.eqb s "TypeVarBound" then t else v | _ => v end.
+
 (* x in <tuple / list> *)
 Definition k_in (x c: kv) : res bool :=
   match c with KTuple l | KList l => Ok (existsb (kv_eqb x) l) | _ => Raise TypeError end.
